@@ -1234,6 +1234,9 @@ package lorawan
 //@ func lemmaC04_joinaccept_cipher
 //@   props C04
 //@   inlines (*PHYPayload).EncryptJoinAcceptPayload (*PHYPayload).DecryptJoinAcceptPayload (JoinAcceptPayload).MarshalBinary (*JoinAcceptPayload).UnmarshalBinary
+//@ func lemmaC04_slow_joinaccept_cipher_cflist
+//@   props C04
+//@   inlines (*PHYPayload).EncryptJoinAcceptPayload (*PHYPayload).DecryptJoinAcceptPayload (JoinAcceptPayload).MarshalBinary (*JoinAcceptPayload).UnmarshalBinary (CFList).MarshalBinary (*CFList).UnmarshalBinary (CFListChannelPayload).MarshalBinary (*CFListChannelPayload).UnmarshalBinary
 
 // ----- the two remaining encoders of the root package
 //@ func (ProprietaryMACCommandPayload).MarshalBinary
